@@ -29,16 +29,20 @@ MANIFEST = {
             'list operations are sound under an all-elements rule and refuted under the first-element rule '
             '(first_rule_refuted, false_mark_changes_product). Tie: the rule table of all 90+ flag-setting sites is regenerated '
             'from the source by an ast translator each run; Coq checks that the modelled rules equal the table entries and that '
-            'every list-valued site consults all elements; failing sites are turned into concrete failing programs.',
+            'every list-valued site consults all elements (after repairs 9bcd50d/4609d39 only runtime._distribute fails); failing '
+            'sites are turned into concrete failing programs.',
     'note': 'Trusted: Coq kernel+vm_compute; ast translator (fail-closed: unrecognised expressions become Other and fail '
             'rule_no_other); scaled-integer model of mul/trunc (field wrap-around excluded by in-range hypotheses). NumPy array '
             'sites are translated (one flag per array) but not executed (/venv has no NumPy). Sites with constant-true rules '
             '(sgn, lsb, to_bits, random bits, unit vectors, indexOf) are checked dynamically only. Guards (raise unless '
             'integral) are listed, not part of the list obligation. prod/pow chains, division: dynamic only. '
             'flag_sound_prog (induction over whole programs) is not stated: soundness is proved per operation (sound_mul etc. are '
-            'preservation lemmas). Open findings (known_findings/C03.json): first-element rule at 10 sites; mpc.input takes the flag '
-            'of all received sharings from the local party\'s own value (parties disagree); vector_add/vector_sub add public ints '
-            'unscaled while marking the result integral.',
+            'preservation lemmas). Findings: F-C03-2..10 (first-element rule at _reshare, vector_add, vector_sub, scalar_mul, '
+            '_if_else_list, _if_swap_list, schur_prod, matrix_prod, random_derangement) repaired in /repo by 9bcd50d; F-C03-12/13 '
+            '(vector_add/vector_sub adding public ints unscaled while marking the result integral) repaired by 4609d39; their table '
+            'entries are now all-elements rules and vector_add/vector_sub are checked against the proved rule. OPEN: F-C03-1 '
+            '(mpc.input/_distribute still takes the flag of every list element from x[0]) and F-C03-11 (mpc.input takes the flag of '
+            'all received sharings from the local party\'s own value, parties disagree).',
     'technique': 'Coq proof over scaled-integer model + regenerated rule table with compiled coverage obligation + synthesised witness programs',
 }
 
